@@ -274,3 +274,257 @@ func c16CrashAt(first, layouts, nDone, entsPer, maxData int) {
 
 func VF_C16_crash_quick()    { c16Crash(20, 1, 1, 2) }
 func VF_C16_crash_thorough() { c16Crash(40, 2, 2, 3) }
+
+// ---------------------------------------------------------------------------
+// VF_C16_torn_fn: isTornEntry == "some sector-aligned chunk of the record is all zero", for records
+// that straddle the sector boundary at every position, all byte contents.
+func c16TornRef(fileOff int64, data []byte) bool {
+	start := 0
+	for start < len(data) {
+		end := start + int(c16Sector-(fileOff+int64(start))%c16Sector)
+		if end > len(data) {
+			end = len(data)
+		}
+		zero := true
+		for _, b := range data[start:end] {
+			zero = vfAnd(zero, b == 0)
+		}
+		if zero {
+			return true
+		}
+		start = end
+	}
+	return false
+}
+
+func c16TornFn(maxLen int) {
+	n := 1 + vfChoice("len", maxLen)
+	// record data starts k bytes before a sector boundary (k in 0..n: boundary before, inside, after)
+	k := vfChoice("before-boundary", n+2)
+	lastValid := int64(2*c16Sector - k - frameSizeBytes)
+	data := make([]byte, n)
+	for i := range data {
+		// zero / non-zero is what matters: one symbolic byte per position
+		data[i] = vfByte("data")
+	}
+	d := &decoder{brs: make([]*fileutil.FileBufReader, 1), lastValidOff: lastValid}
+	got := d.isTornEntry(data)
+	want := c16TornRef(lastValid+frameSizeBytes, data)
+	vfAssert(got == want, "torn-fn")
+	// with more than one file left the record cannot be the tail: never torn
+	d2 := &decoder{brs: make([]*fileutil.FileBufReader, 2), lastValidOff: lastValid}
+	vfAssert(!d2.isTornEntry(data), "torn-fn-not-last-file")
+}
+
+func VF_C16_torn_fn_quick()    { c16TornFn(6) }
+func VF_C16_torn_fn_thorough() { c16TornFn(10) }
+
+// ---------------------------------------------------------------------------
+// VF_C16_crcwidth: one record whose CRC takes every protobuf varint width (1..5 bytes): the record
+// decodes back, the frame stays 8-byte aligned.
+func VF_C16_crcwidth() {
+	vfStubFunc("encoding/binary.Read", c16BinaryRead)
+	vfOpt("solver-soft-ms", 1500)
+	vfOpt("gauss", 0)
+	f := c16NewFile(1)
+	enc := newEncoder(f, 0, 0)
+	data := vfBytes("data", 4, 5)
+	vfAssert(enc.encode(&walpb.Record{Type: entryType, Data: data}) == nil, "encode")
+	vfAssert(enc.flush() == nil, "flush")
+	vfAssert(f.wpos%8 == 0, "frame-aligned")
+	d := newDecoder(&c16Reader{data: f.data})
+	var rec walpb.Record
+	vfAssert(d.decode(&rec) == nil, "decode")
+	vfAssert(vfAnd(rec.Type == entryType, vfBytesEq(rec.Data, data)), "roundtrip")
+	vfAssert(d.lastOffset() == int64(f.wpos), "last-offset")
+	vfAssert(d.decode(&rec) == io.EOF, "eof-after")
+}
+
+// ---------------------------------------------------------------------------
+// VF_C16_corrupt: a correct synced image (head + one batch); one stored byte is replaced by a different
+// value: ReadAll answers an error, or a record-prefix of what was written - never different data.
+func c16Corrupt(maxData int) { c16CorruptAt(-1, maxData) }
+
+func c16CorruptAt(at, maxData int) {
+	c16Stubs()
+	w, f, meta := c16Writer(1, 16)
+	headEnd := f.wpos
+	b := c16MkBatch("b", 1, 1, maxData)
+	vfAssert(w.Save(b.st, b.ents) == nil, "save-error")
+	end := f.wpos
+	// corrupt one byte of the batch region (every offset), or of the head (every offset)
+	o := at
+	if at < 0 {
+		o = vfChoice("offset", end)
+	}
+	_ = headEnd
+	img := make([]byte, len(f.data))
+	copy(img, f.data)
+	nv := vfByte("newval")
+	vfAssume(nv != img[o])
+	img[o] = nv
+	// classify the corrupted position with the reference framing (frames of the intact image)
+	isType, isPad, isFraming := false, false, false
+	for off := 0; off < end; {
+		l := binary.LittleEndian.Uint64(f.data[off : off+8])
+		rb, pb := int(l&^(uint64(0xff)<<56)), 0
+		if int64(l) < 0 {
+			pb = int(l>>56) & 7
+		}
+		if o == off+9 {
+			isType = true // the record's type byte (field 1 of walpb.Record): not covered by the CRC
+		}
+		if o >= off+8+rb && o < off+8+rb+pb {
+			isPad = true // padding bytes carry no data
+		}
+		// protobuf framing bytes of the record: field tags and the payload length varint
+		q := off + 8
+		if o == q || o == q+2 {
+			isFraming = true
+		}
+		q += 3
+		for f.data[q] >= 0x80 { // crc value varint
+			q++
+		}
+		q++
+		if q < off+8+rb {
+			if o == q { // tag of the Data field
+				isFraming = true
+			}
+			q++
+			for f.data[q] >= 0x80 {
+				if o == q {
+					isFraming = true
+				}
+				q++
+			}
+			if o == q {
+				isFraming = true
+			}
+		}
+		off += 8 + rb + pb
+	}
+	tb := vfBool("corrupt.typebyte") // named so that the known-finding classes can refer to them
+	vfAssume(tb == isType)
+	fb := vfBool("corrupt.pbframing")
+	vfAssume(fb == isFraming)
+	_ = isPad
+	r := &WAL{decoder: newDecoder(&c16Reader{data: img})}
+	md, st, ents, err := r.ReadAll()
+	if err != nil {
+		return // refused: fine
+	}
+	vfAssert(vfBytesEq(md, meta), "corrupt-metadata-changed")
+	vfAssert(len(ents) <= 1, "corrupt-extra-entries")
+	if len(ents) == 1 {
+		vfAssert(c16EntryEq(ents[0], b.ents[0]), "corrupt-entry-modified")
+	}
+	vfAssert(vfOr(c16StateEq(st, b.st), c16StateEq(st, raftpb.HardState{})), "corrupt-hardstate-modified")
+}
+
+func VF_C16_corrupt_quick()    { c16Corrupt(1) }
+func VF_C16_corrupt_thorough() { c16Corrupt(3) }
+
+// ---------------------------------------------------------------------------
+// VF_C16_chain: the log continues in a second segment whose first record carries the rolling CRC of
+// the first (what cut() writes). Reading both returns everything; a second segment that continues a
+// different first segment is refused (CRC chain), never spliced in.
+func c16Segment2(prevCrc uint32, meta []byte, st raftpb.HardState, b c16Batch) *c16File {
+	f := c16NewFile(1)
+	c16Cur = f
+	lf := &fileutil.LockedFile{}
+	if !vfIsSymbolic() {
+		lf.File, _ = os.CreateTemp("", "vfwal")
+	}
+	w := &WAL{encoder: newEncoder(f, prevCrc, 0), locks: []*fileutil.LockedFile{lf}}
+	vfAssert(w.saveCrc(prevCrc) == nil, "seg2-crc")
+	vfAssert(w.encoder.encode(&walpb.Record{Type: metadataType, Data: meta}) == nil, "seg2-meta")
+	vfAssert(w.saveState(&st) == nil, "seg2-state")
+	vfAssert(w.Save(b.st, b.ents) == nil, "seg2-save")
+	return f
+}
+
+func VF_C16_chain() {
+	c16Stubs()
+	w1, f1, meta := c16Writer(1, 8)
+	b1 := c16MkBatch("one", 1, 1, 2)
+	vfAssert(w1.Save(b1.st, b1.ents) == nil, "save-error")
+	crc1 := w1.encoder.crc.Sum32()
+	b2 := c16MkBatch("two", 2, 1, 1)
+	f2 := c16Segment2(crc1, meta, b1.st, b2)
+	r := &WAL{decoder: newDecoder(&c16Reader{data: f1.data}, &c16Reader{data: f2.data})}
+	md, st, ents, err := r.ReadAll()
+	vfAssert(err == nil, "chain-readall")
+	vfAssert(vfBytesEq(md, meta), "chain-metadata")
+	vfAssert(len(ents) == 2, "chain-entries")
+	if len(ents) == 2 {
+		vfAssert(vfAnd(c16EntryEq(ents[0], b1.ents[0]), c16EntryEq(ents[1], b2.ents[0])), "chain-entry-modified")
+	}
+	vfAssert(c16StateEq(st, b2.st), "chain-hardstate")
+
+	// a first segment that differs in one payload byte in front of the same second segment (CRC-32
+	// guarantees a different rolling CRC for a single-byte difference; colliding multi-byte differences
+	// exist and are outside what a CRC chain can promise)
+	if len(b1.ents[0].Data) == 0 {
+		return
+	}
+	w3, f3, _ := c16Writer(1, 8)
+	other := append([]byte(nil), b1.ents[0].Data...)
+	nb := vfByte("other.byte")
+	vfAssume(nb != other[0])
+	other[0] = nb
+	e3 := []raftpb.Entry{{Term: b1.ents[0].Term, Index: 1, Data: other}}
+	vfAssert(w3.Save(b1.st, e3) == nil, "save-error")
+	r2 := &WAL{decoder: newDecoder(&c16Reader{data: f3.data}, &c16Reader{data: f2.data})}
+	_, _, _, err2 := r2.ReadAll()
+	vfAssert(err2 != nil, "chain-foreign-segment-accepted")
+}
+
+// ---------------------------------------------------------------------------
+// VF_C16_readall_index: entry records with arbitrary (small) indexes relative to the start snapshot:
+// ReadAll never slices out of range and implements "a later entry with the same index overrides".
+func VF_C16_readall_index() {
+	c16Stubs()
+	w, f, _ := c16Writer(1, 8)
+	start := vfUint64("start")
+	vfAssume(start < 100)
+	n := 2 + vfChoice("n", 2)
+	var idx []uint64
+	for i := 0; i < n; i++ {
+		x := vfUint64("index")
+		vfAssume(x < 100)
+		idx = append(idx, x)
+		e := raftpb.Entry{Term: 1, Index: x, Data: []byte{byte(i + 1)}}
+		vfAssert(w.saveEntry(&e) == nil, "save-entry")
+	}
+	vfAssert(w.sync() == nil, "sync")
+	r := &WAL{decoder: newDecoder(&c16Reader{data: f.data}), start: walpb.Snapshot{Index: start}}
+	_, _, ents, err := r.ReadAll()
+	// reference
+	var ref []byte
+	outOfRange := false
+	for i, x := range idx {
+		if x > start {
+			up := x - start - 1
+			if up > uint64(len(ref)) {
+				outOfRange = true
+				break
+			}
+			ref = append(ref[:up], byte(i+1))
+		}
+	}
+	if outOfRange {
+		vfAssert(err == ErrSliceOutOfRange, "readall-gap-not-refused")
+		return
+	}
+	vfAssert(err == nil || err == ErrSnapshotNotFound, "readall-index-error")
+	vfAssert(len(ents) == len(ref), "readall-index-count")
+	for i := range ref {
+		if i < len(ents) {
+			vfAssert(vfAnd(len(ents[i].Data) == 1, ents[i].Index == start+1+uint64(i)), "readall-index-entry")
+			if len(ents[i].Data) == 1 {
+				vfAssert(ents[i].Data[0] == ref[i], "readall-index-override")
+			}
+		}
+	}
+}
